@@ -14,8 +14,9 @@ from vf.oracles import surface as O
 
 PROP_ID = 'C19'
 TECHNIQUE = ('runtime post-condition monitors with a scalar shifted-wave reference (two-sided on inexact knife edges) judged on '
-             'call-entry snapshots, argument-purity monitors; offline relations between monitored executions (batch, scaling, '
-             'shared objects, histories, back-to-back results); random + exhaustive small shift-vector workload')
+             'call-entry snapshots, argument-purity monitors (also on the exception path); offline relations between monitored '
+             'executions (batch, scaling, shared objects, histories, copies / pickles / assignments / refused operations vs a fresh '
+             'object, back-to-back and A;B;A results); random + exhaustive small shift-vector workload')
 RULE = ('surface cases = (record of 1..400 samples (lengths 1,2,3 and around every power of two up to 257; shared record '
         'classes, amplitudes 1e-12..1e12, large offsets, extreme at the first/last sample, plateaus at both ends, ending after '
         'a sign change; containers float64/float32/int64..int8/uint8/uint16 (most of the dtype range)/list/tuple/list of '
@@ -52,10 +53,32 @@ RULE = ('surface cases = (record of 1..400 samples (lengths 1,2,3 and around eve
         'fas2signal) analysed through the object-level entry points. Wave 5: travel times m*dt/2, m = 1..40 (float products and '
         'decimal literals, dt 0.01/0.005/0.02/0.025/awkward) on untrimmed records whose first and last samples are the largest; '
         'extreme scales: motions, put, join on gen.special_scale records (1e-300..1e300, extreme range, ripple on a baseline, '
-        'counts above 2**24), energy on amplitudes 1e+-100..130.')
+        'counts above 2**24), energy on amplitudes 1e+-100..130. Audit round 3 (checklist 22-27), every history a replayable spec: '
+        'copy.copy / deepcopy / pickle (protocol 2 and highest) / deepcopy-of-copy of an AccSignal and deepcopy / pickle of the Cluster '
+        'that owns it, in the cache states cold / velocity / spectrum / smoothed spectrum / peaks / response spectrum / Stockwell '
+        'memo / after a surface call, then reads and mutators (reset same/shorter/longer, add_constant, remove_average, add_series) '
+        'on the copy, the original or both, in both orders, both objects analysed twice (surface functions and join_sig); '
+        'assignment to values / dt / npts / label / response_times / smooth_fa_freqs / smooth_fa_frequencies / smooth_freq_range / '
+        'time / velocity with lists, tuples, int lists, ndarrays of 1, 2, 3, n-1, n, n+3 entries, then analyses; operations that '
+        'raise (add_series of the wrong length, add_signal with another dt / a non-signal, ragged reset, filter above Nyquist) '
+        'followed by analyses of the same object; calls the library refuses or that are outside the statement (list / tuple / '
+        'mismatched / array+scalar reductions, empty or negative travel times, negative shifts, float or empty shift vectors, '
+        'list time shifts, list travel times of trim_to_length, unknown jtype, records with nan / inf) followed by a valid call '
+        'with the same argument objects; f(A); f(B); f(A) with B differing from A in ONE argument (record, record length, travel '
+        'times, their number, reductions, nodal, stt, trim, start, dt) or in all, for the three surface functions on fresh and on '
+        'one object, and for put / join / join_sig / trim_to_length; edges: fractional delays within 1e-9..1e-3 of a whole '
+        'sample on either side, delays of 1e-9..1e-3 of a step, delays and start lags of 1.5..20 record durations, stt within '
+        '1e-9..1e-3 of a multiple of dt, reductions within 1e-9..1e-3 of 0 and of 1, exactly 0, above 1; silent (all-zero) and '
+        'strictly one-signed records / values as float64, float32, int, list, int list, tuple.')
 ASSUMPTIONS = ['finite real records, dt > 0, travel times >= 0, stt >= 0',
-               'reductions are both scalars or both ndarrays with one entry per travel time (list-typed, 0-d and mixed '
-               'reductions and 0-d travel times are rejected by the library: outside the statement)',
+               'reductions are both scalars or both sequences with one entry per travel time (list-typed, 0-d and mixed '
+               'reductions and 0-d travel times are rejected by the library: no value to judge; a list / tuple of factors that a '
+               'later version accepts is judged like the ndarray with the same entries)',
+               'object histories (copies, pickles, assignments, operations that raised): the record of an AccSignal is what '
+               '.values and .dt read at call entry; every analysis must equal the one of a fresh AccSignal built from these. '
+               'An assignment / refused operation must leave values, npts and time consistent (old or new record, completely). '
+               'Records with nan / inf and objects whose values are not a finite 1-d series are outside the quantifier (counted); '
+               'purity and ownership are judged for them and on the exception path of every monitored function',
                'placement rule for trim/start as read in DESIGN.md C19 (b): moves by floor(stt/dt) - floor(tau/dt) samples',
                'knife edges: a quotient (2*tau/dt, tau/dt, stt/dt, t/dt) whose binary64 evaluation IS an integer is a whole-sample '
                'quantity and decided strictly (first and last sample of the delayed wave belong to the record); when the '
@@ -104,7 +127,11 @@ MIN_EVALS = {'quick': {'energy==oracle': 15000, 'cum==oracle': 8800, 'cum==cumsu
                        'motions.start==moved(no-start)': 170, 'energy(tau=0,anti-nodal)==2v|v|(signal velocity)': 400,
                        'energy==0.5v|v|(trapezoid of the motions)': 400, 'history.derived==fresh': 380,
                        'join==pad+-put2d': 380, 'purity.signal-observables-unchanged': 400,
-                       'result-shares-no-memory-with-arguments': 65000},
+                       'result-shares-no-memory-with-arguments': 65000,
+                       'copy.result==fresh(own values)': 1600, 'copy.unmutated-side-keeps-record': 200,
+                       'assign.record-old-or-new(completely)': 200, 'assign.result==fresh(own values)': 650,
+                       'after-raise.record-consistent': 240, 'after-raise.result==fresh(own values)': 800,
+                       'purity.arguments-unchanged-after-raise': 450, 'third-call==first(A;B;A)': 480},
              'thorough': {'energy==oracle': 270000, 'cum==oracle': 158400, 'cum==cumsum|d(observed energy)|': 158400,
                           'cum.non-decreasing': 158400, 'cum.zero@tau0-nodal': 21600,
                           'cum.scales-alpha^2(pow2,exact)': 14400, 'cum.scales-alpha^2(tol)': 14400,
@@ -222,8 +249,12 @@ def _normalise(p):
     k = len(taus)
 
     def per_row(r):
-        if isinstance(r, (list, tuple)):
-            return 'list'
+        if isinstance(r, (list, tuple)):      # rejected by the clean library; a version that accepts them is judged
+            try:
+                arr = [float(v) for v in r]
+            except Exception:
+                return 'list'
+            return arr if len(arr) == k else None
         if hasattr(r, '__len__'):
             arr = np.asarray(r, dtype=float).ravel()
             return [float(v) for v in arr] if len(arr) == k else None
@@ -367,7 +398,7 @@ def _arg_unchanged(now, before):
         return isinstance(now, np.ndarray) and _same_bits(now, before)
     if isinstance(before, (list, tuple)):
         return (type(now) is type(before) and len(now) == len(before)
-                and all(type(x) is type(y) and x == y for x, y in zip(now, before)))
+                and all(type(x) is type(y) and (x is y or x == y) for x, y in zip(now, before)))
     return True     # immutable scalar
 
 
@@ -378,6 +409,8 @@ def _snap_args(args, kwargs):
     return {'x': np.array(a.values), 'dt': a.dt, 'tt': _copy_arg(tt),
             'up': u.copy() if isinstance(u, np.ndarray) else None,
             'down': d.copy() if isinstance(d, np.ndarray) else None, 'same': u is d and isinstance(u, np.ndarray),
+            'up_seq': _copy_arg(u) if isinstance(u, (list, tuple)) else None,
+            'down_seq': _copy_arg(d) if isinstance(d, (list, tuple)) else None,
             'forms': {'tt': _tt_container(tt), 'red': _red_form(u),
                       'rec_readonly': isinstance(a.values, np.ndarray) and not a.values.flags.writeable}}
 
@@ -469,10 +502,6 @@ def _pre_cum(args, kwargs):
     _INNER['active'] = True
     _INNER['energy'] = None
     return _snap_args(args, kwargs)
-
-
-def _exc_cum(args, kwargs, exc, pre):
-    _INNER['active'] = False
 
 
 def _post_cum(args, kwargs, result, pre):
@@ -820,6 +849,84 @@ def _post_join_sig(args, kwargs, result, pre):
               % (p['jtype'], list(literal)[:8], p['jtype']))
 
 
+# ------------------------------------------------------------------------------------------ monitors: calls that raise
+_R3 = {'spec': None}      # the history being driven (witness of the after-raise purity monitors)
+RAISE_CLAUSE = 'purity.arguments-unchanged-after-raise'
+
+
+def _raise_wit(fn, exc, **extra):
+    d = dict(_R3['spec']) if _R3['spec'] is not None else {'fn': 'r3.raised-call'}
+    d.update({'raised_in': fn, 'exception': repr(exc)[:200]})
+    d.update(extra)
+    return d
+
+
+def _exc_surface(fn):
+    """A refused call (mismatched / list-typed reductions, empty travel times, ...) must leave the record of the signal, the
+    travel-time object and the reduction objects bit-for-bit as they were handed in."""
+    def onex(args, kwargs, exc, snap):
+        if fn == 'calc_cum_abs_surface_energy':
+            _INNER['active'] = False
+        if snap is None or not isinstance(exc, Exception):
+            return
+        p = _parse(args, kwargs, _SURF_NAMES, _SURF_DEF)
+        a = p['asig']
+        try:
+            rec_ok = isinstance(a.values, np.ndarray) and _same_bits(a.values, snap['x']) and a.dt == snap['dt']
+        except Exception:
+            rec_ok = False
+        tt_ok = _arg_unchanged(p['travel_times'], snap['tt'])
+        red_ok = True
+        for key, seq, nm in (('up', 'up_seq', 'up_red'), ('down', 'down_seq', 'down_red')):
+            if snap[key] is not None:
+                red_ok = red_ok and isinstance(p[nm], np.ndarray) and _same_bits(p[nm], snap[key])
+            if snap[seq] is not None:
+                red_ok = red_ok and _arg_unchanged(p[nm], snap[seq])
+        CTX.check(rec_ok and tt_ok and red_ok, RAISE_CLAUSE, lambda: _raise_wit(fn, exc),
+                  '%s raised %s and left %s changed' % (fn, type(exc).__name__,
+                                                        'the record of the signal' if not rec_ok else
+                                                        ('the travel-time object' if not tt_ok else 'a reduction object')))
+    return onex
+
+
+def _exc_trim(args, kwargs, exc, pre):
+    if pre is None or not isinstance(exc, Exception):
+        return
+    p = _parse(args, kwargs, _TRIM_NAMES, _TRIM_DEF)
+    okp = _arg_unchanged(p['values'], pre['values']) and _arg_unchanged(p['surf2depth_travel_times'], pre['tt'])
+    CTX.check(okp, RAISE_CLAUSE, lambda: _raise_wit('trim_to_length', exc),
+              'trim_to_length raised %s and left its values / travel-time argument changed' % type(exc).__name__)
+
+
+def _exc_shift(fn):
+    def onex(args, kwargs, exc, pre):
+        if pre is None or not isinstance(exc, Exception):
+            return
+        p = _parse(args, kwargs, ('values', 'shifts', 'third'), {})
+        okp = _arg_unchanged(p['values'], pre['values']) and _arg_unchanged(p['shifts'], pre['shifts'])
+        CTX.check(okp, RAISE_CLAUSE,
+                  lambda: _raise_wit(fn, exc) if _R3['spec'] is not None else
+                  {'fn': fn, 'values': np.asarray(pre['values']), 'shifts': np.asarray(pre['shifts']), 'purity_only': True,
+                   'values_container': _container_name(p['values']), 'shifts_container': _container_name(p['shifts']),
+                   'jtype': p.get('third', 'add'), 'clip': p.get('third', 'none')},
+                  '%s raised %s and left its values / shifts argument changed' % (fn, type(exc).__name__))
+    return onex
+
+
+def _exc_join_sig(args, kwargs, exc, pre):
+    if pre is None or not isinstance(exc, Exception):
+        return
+    p = _parse(args, kwargs, ('sig', 'time_shifts', 'jtype'), {'jtype': 'add'})
+    sig = p['sig']
+    try:
+        okp = (isinstance(sig.values, np.ndarray) and _same_bits(sig.values, pre['values']) and sig.dt == pre['dt']
+               and _arg_unchanged(p['time_shifts'], pre['ts']))
+    except Exception:
+        okp = False
+    CTX.check(okp, RAISE_CLAUSE, lambda: _raise_wit('join_sig_w_time_shift', exc),
+              'join_sig_w_time_shift raised %s and left the signal or its time_shifts argument changed' % type(exc).__name__)
+
+
 def install(ctx):
     global CTX
     CTX = ctx
@@ -828,13 +935,16 @@ def install(ctx):
     if getattr(sf.calc_surface_energy, '__vf_c19__', False):    # already attached in this process: only switch the context
         return
     ts = eqsig.fns.time_shift
-    attach.wrap(sf, 'calc_surface_energy', _post_energy, pre=_snap_args).__vf_c19__ = True
-    attach.wrap(sf, 'calc_cum_abs_surface_energy', _post_cum, pre=_pre_cum, on_exception=_exc_cum)
-    attach.wrap(sf, 'get_time_shift_motions', _post_motions, pre=_snap_args)
-    attach.wrap(sf, 'trim_to_length', _post_trim, pre=_pre_trim)
-    attach.wrap(ts, 'put_array_in_2d_array', _post_put, pre=_pre_shift)
-    attach.wrap(ts, 'join_values_w_shifts', _post_join, pre=_pre_shift)
-    attach.wrap(ts, 'join_sig_w_time_shift', _post_join_sig, pre=_pre_join_sig)
+    attach.wrap(sf, 'calc_surface_energy', _post_energy, pre=_snap_args,
+                on_exception=_exc_surface('calc_surface_energy')).__vf_c19__ = True
+    attach.wrap(sf, 'calc_cum_abs_surface_energy', _post_cum, pre=_pre_cum,
+                on_exception=_exc_surface('calc_cum_abs_surface_energy'))
+    attach.wrap(sf, 'get_time_shift_motions', _post_motions, pre=_snap_args,
+                on_exception=_exc_surface('get_time_shift_motions'))
+    attach.wrap(sf, 'trim_to_length', _post_trim, pre=_pre_trim, on_exception=_exc_trim)
+    attach.wrap(ts, 'put_array_in_2d_array', _post_put, pre=_pre_shift, on_exception=_exc_shift('put_array_in_2d_array'))
+    attach.wrap(ts, 'join_values_w_shifts', _post_join, pre=_pre_shift, on_exception=_exc_shift('join_values_w_shifts'))
+    attach.wrap(ts, 'join_sig_w_time_shift', _post_join_sig, pre=_pre_join_sig, on_exception=_exc_join_sig)
 
 
 # ---------------------------------------------------------------------------------------------------- driver helpers
@@ -927,7 +1037,7 @@ def _case_wit(fn, c, **extra):
     return d
 
 
-def _call(eqsig, ctx, fn, c, values=None, asig=None):
+def _call(eqsig, ctx, fn, c, values=None, asig=None, wit=None):
     """One monitored call through the public name; an exception on this in-domain input is a violation."""
     try:
         if asig is None:
@@ -935,9 +1045,12 @@ def _call(eqsig, ctx, fn, c, values=None, asig=None):
         args, kw = _call_args(c, asig)
         return getattr(eqsig.surface, fn)(*args, **kw)
     except Exception as e:
-        w = _case_wit(fn, c)
-        if values is not None:
-            w['values'] = np.asarray(values)
+        if wit is not None:
+            w = wit()
+        else:
+            w = _case_wit(fn, c)
+            if values is not None:
+                w['values'] = np.asarray(values)
         ctx.exception(_FN_CLAUSE[fn], w, e)
         return None
 
@@ -2097,6 +2210,888 @@ def draw_values(rng, n, vk=None):
     return v, vk                                                                         # sums overflow float32
 
 
+# ======================================================================================================= audit round 3
+# Checklist items 22-27. Every runner is driven by a SPEC of plain data (arrays, floats, strings) that is also the witness,
+# so that `replay` re-executes the whole history. The monitored calls inside are judged by the post-conditions against the
+# object's values at call entry; the relation clauses compare the object with a fresh AccSignal built from its OWN values.
+R3_FNS = ['calc_surface_energy', 'calc_cum_abs_surface_energy', 'get_time_shift_motions']
+COPY_CLAUSE = 'copy.result==fresh(own values)'
+COPY_SIDE_CLAUSE = 'copy.unmutated-side-keeps-record'
+ASSIGN_REC_CLAUSE = 'assign.record-old-or-new(completely)'
+ASSIGN_CLAUSE = 'assign.result==fresh(own values)'
+RAISE_REC_CLAUSE = 'after-raise.record-consistent'
+RAISE_RES_CLAUSE = 'after-raise.result==fresh(own values)'
+ABA_CLAUSE = 'third-call==first(A;B;A)'
+
+
+def _r3_options(rng, n, dt):
+    """Call options of an object-level case: 1-3 travel times, default / scalar / array reductions, random flags, stt."""
+    k = int(rng.integers(1, 4))
+    taus = []
+    for _ in range(k):
+        r = rng.random()
+        taus.append(0.0 if r < 0.15 else (float(int(rng.integers(0, 2 * n + 1)) * dt / 2) if r < 0.55
+                                          else float(rng.uniform(0, 1.2 * n * dt))))
+    r = rng.random()
+    if r < 0.3:
+        up = down = None
+    elif r < 0.6:
+        up, down = float(rng.uniform(0.05, 1.0)), float(rng.uniform(0.05, 1.0))
+    else:
+        up, down = rng.uniform(0.05, 1.0, size=k), rng.uniform(0.05, 1.0, size=k)
+    r = rng.random()
+    stt = 0.0 if r < 0.3 else (float(rng.uniform(0, n * dt)) if r < 0.65 else float(int(rng.integers(0, n + 1)) * dt))
+    return {'travel_times': np.array(taus), 'nodal': bool(rng.random() < 0.5), 'up_red': up, 'down_red': down, 'stt': stt,
+            'trim': bool(rng.random() < 0.5), 'start': bool(rng.random() < 0.5)}
+
+
+def _r3_case(opts, values, dt):
+    u, d = opts.get('up_red'), opts.get('down_red')
+    return {'values': values, 'dt': dt, 'travel_times': np.atleast_1d(np.asarray(opts['travel_times'], dtype=float)),
+            'tt_obj': opts.get('_tt_obj'), 'tt_container': 'ndarray', 'nodal': bool(opts['nodal']),
+            'up_red': np.asarray(u, dtype=float) if isinstance(u, (list, np.ndarray)) else u,
+            'down_red': np.asarray(d, dtype=float) if isinstance(d, (list, np.ndarray)) else d, 'same_red_object': False,
+            'stt': float(opts['stt']), 'trim': bool(opts['trim']), 'start': bool(opts['start']), 'call_style': 'kw'}
+
+
+def _record_of(obj):
+    """(values copy, reason) - the object's current record when it is inside the quantifier."""
+    cur = np.array(obj.values)
+    if cur.ndim != 1 or cur.size < 1 or cur.dtype.kind not in 'fiub' or not np.all(np.isfinite(cur.astype(float))):
+        return None
+    return cur
+
+
+def _obj_judge(eqsig, ctx, obj, opts, fn, clause, spec, tag):
+    """fn on the object as it is now (judged by the monitors against its current values) and on a fresh AccSignal built from
+    those values: bit-for-bit the same."""
+    wit = lambda: dict(spec, failed_at=tag, failed_fn=fn)
+    try:
+        cur = _record_of(obj)
+        dt = obj.dt
+    except Exception as e:
+        ctx.exception(clause, wit(), e)
+        return None
+    if cur is None:
+        ctx.observe('round 3: object record outside the quantifier (not judged)')
+        return None
+    cc = _r3_case(opts, cur, dt)
+    got = _call(eqsig, ctx, fn, cc, asig=obj, wit=wit)
+    fresh = _call(eqsig, ctx, fn, cc, wit=wit)
+    if got is None or fresh is None:
+        return None
+    ctx.check(np.shape(got) == np.shape(fresh) and bool(np.array_equal(got, fresh)), clause, wit,
+              '%s on the object (%s) differs from a fresh AccSignal built from its current values' % (fn, tag))
+    return np.array(got)
+
+
+def _obj_join(eqsig, ctx, obj, ts, jtype, clause, spec, tag):
+    wit = lambda: dict(spec, failed_at=tag, failed_fn='join_sig_w_time_shift')
+    try:
+        cur = _record_of(obj)
+        if cur is None:
+            ctx.observe('round 3: object record outside the quantifier (not judged)')
+            return
+        t = np.asarray(ts, dtype=float) * obj.dt
+        j1 = eqsig.join_sig_w_time_shift(obj, t, jtype)
+        j2 = eqsig.join_sig_w_time_shift(eqsig.Signal(cur, obj.dt), np.array(t), jtype=jtype)
+    except Exception as e:
+        ctx.exception(clause, wit(), e)
+        return
+    ctx.check(np.shape(j1) == np.shape(j2) and bool(np.array_equal(j1, j2)), clause, wit,
+              'join_sig_w_time_shift on the object (%s) differs from a fresh Signal built from its current values' % tag)
+
+
+def _warm(eqsig, ctx, a, kind, opts, spec):
+    """Bring the object into a cache state (reads of derived quantities; none of them is a C19 function)."""
+    try:
+        if kind == 'vel':
+            a.velocity
+            a.displacement
+        elif kind == 'fa':
+            a.fa_spectrum
+        elif kind == 'smooth':
+            a.smooth_fa_spectrum
+        elif kind == 'peaks':
+            a.pga
+            a.pgv
+            a.pgd
+        elif kind == 'rs':
+            a.s_a
+        elif kind == 'stockwell':
+            a.swtf = eqsig.stockwell.transform(a.values)      # what eqsig.stockwell memoises on the object
+        elif kind == 'surface':
+            _obj_judge(eqsig, ctx, a, opts, spec.get('surf_fn', R3_FNS[0]), spec['_clause'], spec, 'warm-up call')
+    except Exception as e:
+        ctx.observe('round 3: warm-up %s raised %s (not a C19 function; not judged)' % (kind, type(e).__name__))
+
+
+WARM_KINDS = ['cold', 'vel', 'fa', 'smooth', 'peaks', 'rs', 'stockwell', 'surface']
+CLONE_KINDS = ['copy', 'deepcopy', 'pickle', 'pickle2', 'cluster-deepcopy', 'cluster-pickle', 'deepcopy-of-copy']
+MUT_KINDS = ['none', 'reset-same', 'reset-shorter', 'reset-longer', 'add_constant', 'remove_average', 'add_series']
+
+
+def _clone(a, how, cluster=None):
+    import copy
+    import pickle
+    if how == 'copy':
+        return copy.copy(a)
+    if how == 'deepcopy':
+        return copy.deepcopy(a)
+    if how == 'pickle':
+        return pickle.loads(pickle.dumps(a, protocol=pickle.HIGHEST_PROTOCOL))
+    if how == 'pickle2':
+        return pickle.loads(pickle.dumps(a, protocol=2))
+    if how == 'cluster-deepcopy':
+        return copy.deepcopy(cluster).signal_by_index(0)
+    if how == 'cluster-pickle':
+        return pickle.loads(pickle.dumps(cluster)).signal_by_index(0)
+    return copy.deepcopy(copy.copy(a))
+
+
+def _mutate(obj, mut, s):
+    v2 = np.asarray(s['values2'], dtype=float)
+    if mut == 'reset-same':
+        obj.reset_values(np.resize(v2, obj.npts))
+    elif mut == 'reset-shorter':
+        obj.reset_values(np.resize(v2, max(1, obj.npts - int(s['delta']))))
+    elif mut == 'reset-longer':
+        obj.reset_values(np.resize(v2, obj.npts + int(s['delta'])))
+    elif mut == 'add_constant':
+        obj.add_constant(float(s['constant']))
+    elif mut == 'remove_average':
+        obj.remove_average()
+    elif mut == 'add_series':
+        obj.add_series(np.resize(v2, obj.npts))
+
+
+def gen_protocol_spec(rng, j):
+    n = int(rng.choice([2, 3, 5, 8, 16, 17, 33, 64, 100, 150]))
+    x, rcls = draw_record(rng, n)
+    dt, dtk = draw_dt(rng)
+    warm = WARM_KINDS[j % len(WARM_KINDS)]
+    if warm == 'stockwell' and n > 64:
+        n = 64
+        x = x[:64]
+    how = CLONE_KINDS[(j // len(WARM_KINDS) + j) % len(CLONE_KINDS)]
+    mut = MUT_KINDS[int(rng.integers(len(MUT_KINDS)))]
+    return {'fn': 'r3.protocol', 'values': x, 'dt': dt, 'warm': warm, 'how': how, 'mut': mut,
+            'mut_on': str(rng.choice(['copy', 'orig', 'both'])), 'order': str(rng.choice(['copy-first', 'orig-first'])),
+            'values2': draw_record(rng, n + 8)[0], 'delta': int(rng.integers(1, 8)), 'constant': float(rng.normal()),
+            'read_copy': WARM_KINDS[int(rng.integers(len(WARM_KINDS) - 2))], 'read_orig': WARM_KINDS[int(rng.integers(len(WARM_KINDS) - 2))],
+            'opts': _r3_options(rng, n, dt), 'surf_fn': R3_FNS[j % 3], 'surf_fn2': R3_FNS[int(rng.integers(3))],
+            'ts': [0.0, float(rng.integers(0, n + 1)), float(rng.uniform(0, n))], 'jtype': ['add', 'sub'][j % 2],
+            'pre_call': bool(rng.random() < 0.5), 'record_class': rcls}
+
+
+def exec_protocol(eqsig, ctx, s):
+    """copy.copy / copy.deepcopy / pickle round trip of an AccSignal (or of the Cluster that owns it) in a given cache state,
+    then reads and mutators on the copy and on the original in both orders; both objects analysed twice."""
+    s = dict(s, _clause=COPY_CLAUSE)
+    spec = dict((k, v) for k, v in s.items() if not k.startswith('_'))
+    _R3['spec'] = spec
+    x = np.asarray(s['values'], dtype=float)
+    opts = s['opts']
+    cluster = None
+    try:
+        if s['how'].startswith('cluster'):
+            cluster = eqsig.Cluster([x, x[::-1].copy()], s['dt'], stypes='acc')
+            a = cluster.signal_by_index(0)
+        else:
+            a = eqsig.AccSignal(x, s['dt'])
+    except Exception as e:
+        ctx.exception(COPY_CLAUSE, spec, e)
+        return
+    _warm(eqsig, ctx, a, s['warm'], opts, s)
+    if s.get('pre_call'):
+        _obj_judge(eqsig, ctx, a, opts, s['surf_fn2'], COPY_CLAUSE, spec, 'original before the copy')
+    try:
+        b = _clone(a, s['how'], cluster)
+    except Exception as e:
+        ctx.exception(COPY_CLAUSE, dict(spec, failed_at='copying the object'), e)
+        return
+    ctx.observe('round 3: %s of a signal in state %s' % (s['how'], s['warm']))
+    snap = {'orig': np.array(a.values), 'copy': None}
+    try:
+        snap['copy'] = np.array(b.values)
+    except Exception as e:
+        ctx.exception(COPY_CLAUSE, dict(spec, failed_at='reading the values of the copy'), e)
+        return
+    _warm(eqsig, ctx, b, s['read_copy'], opts, s)
+    _warm(eqsig, ctx, a, s['read_orig'], opts, s)
+    objs = {'copy': b, 'orig': a}
+    targets = ['copy', 'orig'] if s['mut_on'] == 'both' else [s['mut_on']]
+    if s['order'] == 'orig-first':
+        targets = targets[::-1]
+    mutated = set()
+    if s['mut'] != 'none':
+        for t in targets:
+            try:
+                _mutate(objs[t], s['mut'], s)
+                mutated.add(t)
+            except Exception as e:
+                ctx.observe('round 3: mutator %s raised %s (not a C19 function; not judged)' % (s['mut'], type(e).__name__))
+    # a shallow copy shares the value buffer by definition; after a rebinding mutator on one side it must not any more
+    if s['how'] == 'copy' and len(mutated) == 1:
+        try:
+            if np.shares_memory(a.values, b.values):
+                ctx.observe('round 3: shallow copy still shares its value buffer after a mutator (not judged further)')
+                return
+        except Exception:
+            pass
+    for side in ('copy', 'orig'):
+        if side not in mutated:
+            try:
+                now = np.asarray(objs[side].values)
+                okk = _same_bits(now, snap[side]) and objs[side].npts == len(snap[side]) and objs[side].dt == s['dt']
+            except Exception:
+                okk = False
+            ctx.check(okk, COPY_SIDE_CLAUSE, lambda: dict(spec, failed_at=side),
+                      'the %s was not mutated but its record / npts / dt changed (mutator %s on %s)' % (side, s['mut'], s['mut_on']))
+    order = ['copy', 'orig'] if s['order'] == 'copy-first' else ['orig', 'copy']
+    for rnd, seq in enumerate((order, order[::-1])):
+        fn = s['surf_fn'] if rnd == 0 else s['surf_fn2']
+        for side in seq:
+            _obj_judge(eqsig, ctx, objs[side], opts, fn, COPY_CLAUSE, spec, '%s, round %d' % (side, rnd))
+            if rnd == 0:
+                _obj_join(eqsig, ctx, objs[side], s['ts'], s['jtype'], COPY_CLAUSE, spec, '%s join' % side)
+    _R3['spec'] = None
+
+
+ASSIGN_ATTRS = ['values', 'values', 'values', 'values', 'dt', 'npts', 'label', 'response_times', 'smooth_fa_freqs',
+                'smooth_fa_frequencies', 'smooth_freq_range', 'time', 'velocity']
+
+
+def gen_assign_spec(rng, j):
+    n = int(rng.choice([1, 2, 3, 4, 8, 30, 65]))
+    x, rcls = draw_record(rng, n)
+    dt, dtk = draw_dt(rng)
+    attr = ASSIGN_ATTRS[j % len(ASSIGN_ATTRS)]
+    size = int([1, 2, 3, n, n + 3, max(1, n - 1)][int(rng.integers(6))])
+    if attr in ('values', 'velocity', 'time'):
+        new = draw_record(rng, size)[0]
+        if rng.random() < 0.3:
+            new = np.round(new * 3) + 1.0
+    elif attr == 'dt':
+        new = float(rng.choice([2 * dt, dt / 2, 0.01, 1.0]))
+    elif attr == 'npts':
+        new = int(rng.choice([1, n + 1, max(1, n - 1), 2 * n]))
+    elif attr == 'label':
+        new = 'relabelled'
+    elif attr == 'smooth_freq_range':
+        new = np.array([0.2, 20.0])
+    else:
+        new = np.sort(rng.uniform(0.05, 4.0, size=size))
+    return {'fn': 'r3.assign', 'values': x, 'dt': dt, 'attr': attr, 'form': ['list', 'tuple', 'ndarray', 'list-int'][(j // len(ASSIGN_ATTRS)) % 4],
+            'new': new, 'warm': ['cold', 'vel', 'surface', 'peaks'][int(rng.integers(4))], 'opts': _r3_options(rng, n, dt),
+            'surf_fn': R3_FNS[j % 3], 'surf_fn2': R3_FNS[int(rng.integers(3))], 'ts': [0.0, 1.0, float(rng.uniform(0, n))],
+            'jtype': ['sub', 'add'][j % 2], 'record_class': rcls}
+
+
+def _assign_value(s):
+    new, form = s['new'], s['form']
+    if not isinstance(new, (np.ndarray, list, tuple)):
+        return new
+    arr = np.asarray(new, dtype=float)
+    if form == 'list':
+        return [float(v) for v in arr]
+    if form == 'tuple':
+        return tuple(float(v) for v in arr)
+    if form == 'list-int':
+        return [int(v) for v in np.round(np.clip(arr, -1e15, 1e15))]
+    return np.array(arr)
+
+
+def exec_assign(eqsig, ctx, s):
+    """Assignment through a public attribute name after construction: the object must afterwards behave like one constructed
+    with the value, or ignore / reject the assignment completely (never half: values changed but npts / time not)."""
+    s = dict(s, _clause=ASSIGN_CLAUSE)
+    spec = dict((k, v) for k, v in s.items() if not k.startswith('_'))
+    _R3['spec'] = spec
+    x = np.asarray(s['values'], dtype=float)
+    try:
+        a = eqsig.AccSignal(x, s['dt'])
+    except Exception as e:
+        ctx.exception(ASSIGN_CLAUSE, spec, e)
+        return
+    _warm(eqsig, ctx, a, s['warm'], s['opts'], s)
+    old = np.array(a.values)
+    newval = _assign_value(s)
+    import warnings
+    try:
+        with warnings.catch_warnings():
+            warnings.simplefilter('ignore')
+            setattr(a, s['attr'], newval)
+        ctx.observe('round 3: assignment to .%s accepted without an exception' % s['attr'])
+    except Exception as e:
+        ctx.observe('round 3: assignment to .%s rejected with %s' % (s['attr'], type(e).__name__))
+    msg = ''
+    try:
+        now = np.asarray(a.values)
+        cons = now.ndim == 1 and a.npts == len(now) and len(a.time) == len(now)
+        if not cons:
+            msg = 'values has %s samples, npts = %r, time has %d entries' % (now.shape, a.npts, len(a.time))
+        kept = _same_bits(now, old)
+        taken = False
+        if s['attr'] == 'values':
+            ref = np.asarray(newval, dtype=float)
+            taken = now.shape == ref.shape and bool(np.array_equal(now.astype(float), ref))
+        dt_ok = a.dt == s['dt'] or (s['attr'] == 'dt' and a.dt == newval)
+        if cons and not (kept or taken):
+            msg = 'the record is neither the old one nor the assigned one'
+        if cons and not dt_ok:
+            msg = 'dt reads %r' % (a.dt,)
+        okk = cons and (kept or taken) and dt_ok
+    except Exception as e:
+        okk, msg = False, 'reading the object raised %r' % (e,)
+    ctx.check(okk, ASSIGN_REC_CLAUSE, lambda: dict(spec, failed_at='state after the assignment'),
+              'after `obj.%s = <%s of %d>`: %s' % (s['attr'], s['form'], np.size(s['new']), msg))
+    _obj_judge(eqsig, ctx, a, s['opts'], s['surf_fn'], ASSIGN_CLAUSE, spec, 'after the assignment')
+    _obj_join(eqsig, ctx, a, s['ts'], s['jtype'], ASSIGN_CLAUSE, spec, 'join after the assignment')
+    try:
+        a.velocity       # a read between the two analyses
+    except Exception as e:
+        ctx.observe('round 3: velocity read after an assignment raised %s (not judged)' % type(e).__name__)
+    _obj_judge(eqsig, ctx, a, s['opts'], s['surf_fn2'], ASSIGN_CLAUSE, spec, 'after the assignment, second analysis')
+    _R3['spec'] = None
+
+
+RAISE_OPS = ['add_series-short', 'add_series-long', 'add_series-one', 'add_signal-other-dt', 'add_signal-not-a-signal',
+             'reset-ragged', 'butter-above-nyquist', 'add_series-list-short']
+REJECT_KINDS = ['red-list', 'red-tuple', 'red-mismatch', 'red-array+scalar', 'tt-empty', 'tt-negative', 'join-negative-shift',
+                'join_sig-list-times', 'join_sig-negative-time', 'put-float-shifts', 'put-empty-shifts', 'trim-list-tt',
+                'join-unknown-jtype', 'red-list-one-object']
+NONFINITE = ['nan', 'inf', '-inf', 'nan-first', 'inf-last']
+
+
+def gen_raise_spec(rng, j):
+    n = int(rng.choice([2, 3, 5, 9, 16, 40, 90]))
+    x, rcls = draw_record(rng, n)
+    dt, dtk = draw_dt(rng)
+    group = ['mutator', 'reject', 'nonfinite'][j % 3]
+    if group == 'mutator':
+        kind = RAISE_OPS[(j // 3) % len(RAISE_OPS)]
+    elif group == 'reject':
+        kind = REJECT_KINDS[(j // 3) % len(REJECT_KINDS)]
+    else:
+        kind = NONFINITE[(j // 3) % len(NONFINITE)]
+    opts = _r3_options(rng, n, dt)
+    k = len(opts['travel_times'])
+    return {'fn': 'r3.raise', 'values': x, 'dt': dt, 'group': group, 'kind': kind, 'warm': ['cold', 'vel', 'surface'][int(rng.integers(3))],
+            'opts': opts, 'surf_fn': R3_FNS[j % 3], 'surf_fn2': R3_FNS[int(rng.integers(3))],
+            'series': draw_record(rng, n + 5)[0], 'red': rng.uniform(0.05, 1.4, size=k + 1), 'pos': int(rng.integers(n)),
+            'shifts': rng.integers(-4, 5, size=int(rng.integers(1, 5))), 'ts': [0.0, 2.0, float(rng.uniform(0, n))],
+            'jtype': ['add', 'sub'][j % 2], 'record_class': rcls}
+
+
+def _raising_mutator(eqsig, a, s):
+    kind, ser, n = s['kind'], np.asarray(s['series'], dtype=float), a.npts
+    if kind == 'add_series-short':
+        a.add_series(ser[: max(n - 1, 0)] if n > 1 else ser[:2])
+    elif kind == 'add_series-long':
+        a.add_series(ser[: n + 3])
+    elif kind == 'add_series-one':
+        a.add_series(ser[:1] if n > 1 else ser[:3])
+    elif kind == 'add_series-list-short':
+        a.add_series([float(v) for v in ser[: n + 1]])
+    elif kind == 'add_signal-other-dt':
+        a.add_signal(eqsig.AccSignal(ser[:n], a.dt * 2))
+    elif kind == 'add_signal-not-a-signal':
+        a.add_signal(ser[:n])
+    elif kind == 'reset-ragged':
+        a.reset_values([[1.0, 2.0], [3.0]])
+    elif kind == 'butter-above-nyquist':
+        a.butter_pass((0.1, 3.0 / a.dt))
+
+
+def _rejected_call(eqsig, a, s, args):
+    """One call the clean library refuses. `args` holds the argument objects (kept by the caller for the later valid call)."""
+    kind, opts = s['kind'], s['opts']
+    tt = args['tt']
+    k = len(tt)
+    fn = getattr(eqsig.surface, s['surf_fn'])
+    red = np.asarray(s['red'], dtype=float)
+    kw = {'nodal': opts['nodal'], 'stt': opts['stt'], 'trim': opts['trim'], 'start': opts['start']}
+    if kind == 'red-list':
+        args['up'], args['down'] = [float(v) for v in red[:k]], [float(v) for v in red[:k][::-1]]
+        return fn(a, tt, up_red=args['up'], down_red=args['down'], **kw)
+    if kind == 'red-list-one-object':
+        args['up'] = args['down'] = [float(v) for v in red[:k]]
+        return fn(a, tt, up_red=args['up'], down_red=args['down'], **kw)
+    if kind == 'red-tuple':
+        args['up'], args['down'] = tuple(float(v) for v in red[:k]), tuple(float(v) for v in red[:k])
+        return fn(a, tt, up_red=args['up'], down_red=args['down'], **kw)
+    if kind == 'red-mismatch':
+        args['up'], args['down'] = np.array(red[:k + 1]), np.array(red[:k + 1][::-1])
+        return fn(a, tt, up_red=args['up'], down_red=args['down'], **kw)
+    if kind == 'red-array+scalar':
+        args['up'] = np.array(red[:k])
+        return fn(a, tt, up_red=args['up'], down_red=0.5, **kw)
+    if kind == 'tt-empty':
+        args['tt_bad'] = np.array([])
+        return fn(a, args['tt_bad'], **kw)
+    if kind == 'tt-negative':
+        args['tt_bad'] = -np.abs(tt) - a.dt
+        return fn(a, args['tt_bad'], **kw)
+    vals = args['vals']
+    sh = np.asarray(s['shifts'])
+    if kind == 'join-negative-shift':
+        args['sh'] = -np.abs(sh) - 1
+        return eqsig.join_values_w_shifts(vals, args['sh'], s['jtype'])
+    if kind == 'join-unknown-jtype':
+        args['sh'] = np.abs(sh)
+        return eqsig.join_values_w_shifts(vals, args['sh'], 'mul')
+    if kind == 'join_sig-list-times':
+        args['ts'] = [float(t) * a.dt for t in s['ts']]
+        return eqsig.join_sig_w_time_shift(a, args['ts'], s['jtype'])
+    if kind == 'join_sig-negative-time':
+        args['ts'] = -np.asarray(s['ts'], dtype=float) * a.dt - a.dt
+        return eqsig.join_sig_w_time_shift(a, args['ts'], s['jtype'])
+    if kind == 'put-float-shifts':
+        args['sh'] = sh.astype(float) + 0.5
+        return eqsig.put_array_in_2d_array(vals, args['sh'], 'both')
+    if kind == 'put-empty-shifts':
+        args['sh'] = np.array([], dtype=int)
+        return eqsig.put_array_in_2d_array(vals, args['sh'])
+    if kind == 'trim-list-tt':
+        args['v2d'] = np.arange(1.0, 1.0 + k * (a.npts + 4)).reshape(k, a.npts + 4)
+        args['tt_bad'] = [float(t) for t in tt]
+        return eqsig.surface.trim_to_length(args['v2d'], a.npts, args['tt_bad'], a.dt, trim=True, start=True, s2s_travel_time=opts['stt'])
+    raise ValueError(kind)
+
+
+def exec_raise(eqsig, ctx, s):
+    """Operations that raise (or that the clean code accepts silently although they are outside the statement): afterwards the
+    object must be consistent and analyse like a fresh object with its current values; the arguments of a refused C19 call
+    must be untouched (monitor on the exception path); a valid call with the SAME argument objects follows."""
+    s = dict(s, _clause=RAISE_RES_CLAUSE)
+    spec = dict((k, v) for k, v in s.items() if not k.startswith('_'))
+    _R3['spec'] = spec
+    x = np.asarray(s['values'], dtype=float)
+    opts = s['opts']
+    if s['group'] == 'nonfinite':
+        x = x.copy()
+        kind = s['kind']
+        pos = 0 if kind.endswith('first') else (len(x) - 1 if kind.endswith('last') else int(s['pos']))
+        x[pos] = {'nan': np.nan, 'inf': np.inf, '-inf': -np.inf}[kind.split('-')[0] if not kind.startswith('-') else '-inf']
+    try:
+        a = eqsig.AccSignal(x, s['dt'])
+    except Exception as e:
+        ctx.exception(RAISE_RES_CLAUSE, spec, e)
+        return
+    if s['group'] != 'nonfinite':
+        _warm(eqsig, ctx, a, s['warm'], opts, s)
+    before = np.array(a.values)
+    if s['group'] == 'mutator':
+        try:
+            _raising_mutator(eqsig, a, s)
+            ctx.observe('round 3: %s did not raise' % s['kind'])
+            raised = False
+        except Exception as e:
+            ctx.observe('round 3: %s raised %s' % (s['kind'], type(e).__name__))
+            raised = True
+        msg = ''
+        try:
+            now = np.asarray(a.values)
+            okk = now.ndim == 1 and a.npts == len(now) and len(a.time) == len(now) and a.dt == s['dt']
+            if not okk:
+                msg = 'values has shape %s, npts = %r, time has %d entries, dt = %r' % (now.shape, a.npts, len(a.time), a.dt)
+        except Exception as e:
+            okk, msg = False, 'reading the object raised %r' % (e,)
+        ctx.check(okk, RAISE_REC_CLAUSE, lambda: dict(spec, failed_at='state after the operation', raised=raised),
+                  'after %s (%s): %s' % (s['kind'], 'raised' if raised else 'returned', msg))
+    elif s['group'] == 'reject':
+        args = {'tt': np.array(opts['travel_times'], dtype=float), 'vals': np.array(x)}
+        keep_tt = args['tt'].copy()
+        try:
+            with np.errstate(all='ignore'):
+                _rejected_call(eqsig, a, s, args)
+            ctx.observe('round 3: %s accepted (returned a value)' % s['kind'])
+        except Exception as e:
+            ctx.observe('round 3: %s refused with %s' % (s['kind'], type(e).__name__))
+        try:
+            now = np.asarray(a.values)
+            okk = _same_bits(now, before) and a.npts == len(before) and a.dt == s['dt'] and _same_bits(args['tt'], keep_tt) \
+                and _same_bits(np.asarray(args['vals']), x)
+        except Exception:
+            okk = False
+        ctx.check(okk, RAISE_REC_CLAUSE, lambda: dict(spec, failed_at='state after the refused call'),
+                  'after the refused / out-of-domain call %s the signal, the travel times or the values differ from before' % s['kind'])
+        # the valid call that follows uses the same travel-time object (and the same ndarray reductions where they fit)
+        opts = dict(opts, _tt_obj=args['tt'])
+        if isinstance(args.get('up'), np.ndarray) and len(args['up']) == len(args['tt']):
+            opts['up_red'], opts['down_red'] = args['up'], args['up']
+    else:
+        for fn in R3_FNS:
+            cc = _r3_case(opts, x, s['dt'])
+            try:
+                argv, kw = _call_args(cc, a)
+                with np.errstate(all='ignore'):
+                    getattr(eqsig.surface, fn)(*argv, **kw)
+                ctx.observe('round 3: non-finite record accepted by %s (values not judged; purity and ownership are)' % fn)
+            except Exception as e:
+                ctx.observe('round 3: non-finite record refused by %s with %s' % (fn, type(e).__name__))
+        try:
+            with np.errstate(all='ignore'):
+                eqsig.put_array_in_2d_array(x, np.asarray(s['shifts']), 'none')
+                eqsig.join_values_w_shifts(x, np.abs(np.asarray(s['shifts'])), s['jtype'])
+                eqsig.join_sig_w_time_shift(a, np.asarray(s['ts'], dtype=float) * a.dt, s['jtype'])
+        except Exception as e:
+            ctx.observe('round 3: non-finite values refused by a shift helper with %s' % type(e).__name__)
+        try:
+            okk = _same_bits(np.asarray(a.values), before) and a.npts == len(before)
+        except Exception:
+            okk = False
+        ctx.check(okk, RAISE_REC_CLAUSE, lambda: dict(spec, failed_at='state after the non-finite calls'),
+                  'the non-finite record of the signal was altered by an analysis function')
+        a.reset_values(np.asarray(s['values'], dtype=float))       # the same object, now with a finite record
+    _obj_judge(eqsig, ctx, a, opts, s['surf_fn'], RAISE_RES_CLAUSE, spec, 'after the operation')
+    _obj_join(eqsig, ctx, a, s['ts'], s['jtype'], RAISE_RES_CLAUSE, spec, 'join after the operation')
+    _obj_judge(eqsig, ctx, a, opts, s['surf_fn2'], RAISE_RES_CLAUSE, spec, 'after the operation, second analysis')
+    _R3['spec'] = None
+
+
+ABA_VARIANTS = ['record', 'record-shape', 'tt', 'tt-count', 'red', 'nodal', 'stt', 'trim', 'start', 'dt', 'all', 'record+nodal']
+
+
+def _plain_case(c):
+    """The case without its private argument objects (the travel-time object is rebuilt from the container name)."""
+    d = dict(c)
+    tt = d.pop('tt_obj', None)
+    if isinstance(tt, np.ndarray):
+        d['travel_times'] = np.array(tt)       # keeps the dtype
+    d.pop('forms_cls', None)
+    d['values_container'] = type(c['values']).__name__
+    u = d.get('up_red')
+    d['red_form'] = None if u is None else _red_form(u)
+    return d
+
+
+def _case_from_plain(d):
+    c = _reform(d)
+    tt = np.asarray(d['travel_times'])
+    c['tt_obj'] = _build_tt(tt, d.get('tt_container', 'ndarray'))
+    c['travel_times'] = np.atleast_1d(np.asarray(tt, dtype=float))
+    return c
+
+
+def gen_aba_spec(rng, j):
+    A, cls, rcls = gen_surface_case(rng)
+    variant = ABA_VARIANTS[j % len(ABA_VARIANTS)]
+    n, dt, k = len(A['values']), A['dt'], len(A['travel_times'])
+    B = dict(A)
+    if variant in ('record', 'record+nodal'):
+        B['values'] = draw_record(rng, n)[0]
+        if variant == 'record+nodal':
+            B['nodal'] = not A['nodal']
+    elif variant == 'record-shape':
+        B['values'] = draw_record(rng, n + int(rng.choice([-1, 1, 2, 7])) if n > 1 else n + 1)[0]
+    elif variant == 'tt':
+        t = np.array(A['travel_times'], dtype=float)
+        t[int(rng.integers(k))] += dt * float(rng.choice([0.5, 1.0, 0.25, 3.0]))
+        B.update(travel_times=t, tt_obj=np.array(t), tt_container='ndarray')
+    elif variant == 'tt-count':
+        t = np.concatenate([np.array(A['travel_times'], dtype=float), [float(rng.uniform(0, n * dt))]])
+        B.update(travel_times=t, tt_obj=np.array(t), tt_container='ndarray', up_red=None, down_red=None, same_red_object=False)
+    elif variant == 'red':
+        if isinstance(A['up_red'], np.ndarray):
+            B.update(up_red=rng.uniform(0.05, 1.0, size=k), down_red=rng.uniform(0.05, 1.0, size=k), same_red_object=False)
+        else:
+            B.update(up_red=float(rng.uniform(0.05, 1.0)), down_red=float(rng.uniform(0.05, 1.0)), same_red_object=False)
+    elif variant == 'nodal':
+        B['nodal'] = not A['nodal']
+    elif variant == 'stt':
+        B['stt'] = float(A['stt']) + dt * float(rng.choice([1.0, 2.0, 0.5, 7.0]))
+    elif variant == 'trim':
+        B['trim'] = not A['trim']
+    elif variant == 'start':
+        B['start'] = not A['start']
+        if not B['start'] and not A['trim'] and A['stt'] == 0:
+            B['stt'] = 2.0 * dt
+    elif variant == 'dt':
+        # float32 travel times stay inside the range of validity of the monitor (exact quotients: power-of-two factors only)
+        f32_tt = isinstance(A.get('tt_obj'), np.ndarray) and A['tt_obj'].dtype == np.float32
+        B['dt'] = float(dt * float(rng.choice([2.0, 0.5] if f32_tt else [2.0, 0.5, 1.25])))
+    else:
+        B = gen_surface_case(rng)[0]
+    return {'fn': 'r3.aba', 'A': _plain_case(A), 'B': _plain_case(B), 'variant': variant, 'surf_fn': R3_FNS[(j // len(ABA_VARIANTS)) % 3],
+            'same_object': bool(rng.random() < 0.5)}
+
+
+def exec_aba(eqsig, ctx, s):
+    """Results depend on the arguments only: f(A); f(B); f(A) with B differing from A in ONE argument (or in all): the third
+    result equals the first bit for bit (every call is judged by the post-conditions as well)."""
+    _R3['spec'] = s
+    A, B = _case_from_plain(s['A']), _case_from_plain(s['B'])
+    fn = s['surf_fn']
+    obj = None
+    if s.get('same_object'):
+        try:
+            obj = _make_sig(eqsig, A)
+        except Exception as e:
+            ctx.exception(ABA_CLAUSE, s, e)
+            return
+    r1 = _call(eqsig, ctx, fn, A, asig=obj)
+    if r1 is None:
+        return
+    keep = np.array(r1)
+    r2 = _call(eqsig, ctx, fn, B)
+    r3 = _call(eqsig, ctx, fn, A, asig=obj)
+    if r3 is None:
+        return
+    ctx.check(np.shape(r3) == keep.shape and bool(np.array_equal(r3, keep, equal_nan=True)) and bool(np.array_equal(r1, keep, equal_nan=True))
+              and r3 is not r1 and (r2 is None or r2 is not r1),
+              ABA_CLAUSE, lambda: dict(s), '%s(A); %s(B: other %s); %s(A): the third result differs from the first (or results share '
+              'an object)' % (fn, fn, s['variant'], fn))
+    _R3['spec'] = None
+
+
+def gen_aba_shift_spec(rng, j):
+    vals, sh, kind = gen_shift_case(rng)
+    vals = np.asarray(vals)
+    which = ['put', 'join', 'join_sig', 'trim'][j % 4]
+    variant = ['values', 'shifts', 'option', 'values-shape', 'dt'][(j // 4) % 5]
+    if which != 'put':
+        sh = np.abs(sh)
+    return {'fn': 'r3.aba-shift', 'which': which, 'variant': variant, 'values': vals, 'values2': draw_values(rng, len(vals))[0],
+            'values3': draw_values(rng, len(vals) + int(rng.integers(1, 4)))[0], 'shifts': sh,
+            'shifts2': np.asarray(sh) + rng.integers(0, 3, size=len(sh)) * (1 if which != 'put' else int(rng.choice([-1, 1]))),
+            'dt': float(rng.choice([0.5, 0.01, 0.02, 1.0 / 128])), 'odd': bool(j % 2), 'npts': int(rng.integers(2, 12)),
+            'stt': float(rng.integers(0, 6)), 'kind': kind}
+
+
+def _aba_shift_call(eqsig, s, use_b):
+    """f(A) or f(B): B differs from A in the argument named by s['variant'] only."""
+    which, var = s['which'], s['variant']
+    vals = np.asarray(s['values'])
+    sh = np.asarray(s['shifts'])
+    odd = bool(s['odd'])
+    dt = float(s['dt'])
+    if use_b:
+        if var == 'values':
+            vals = np.asarray(s['values2'])
+        elif var == 'values-shape':
+            vals = np.asarray(s['values3'])
+        elif var == 'shifts':
+            sh = np.asarray(s['shifts2'])
+        elif var == 'option':
+            odd = not odd
+        elif var == 'dt':
+            dt = dt * 2
+    if which == 'put':
+        return eqsig.put_array_in_2d_array(vals, sh, ['both', 'start'][int(odd)] if var == 'option' else ['none', 'both'][int(odd)])
+    if which == 'join':
+        return eqsig.join_values_w_shifts(vals, sh, 'sub' if odd else 'add')
+    if which == 'join_sig':
+        return eqsig.join_sig_w_time_shift(eqsig.Signal(vals, dt), sh.astype(float) * float(s['dt']) + 0.25 * float(s['dt']),
+                                           jtype='sub' if odd else 'add')
+    # trim_to_length on a coded 2-d array; the travel times (in samples) are the shifts
+    npts = int(s['npts']) + (len(vals) if use_b and var in ('values', 'values-shape') else 0)
+    width = npts + int(2 * np.max(sh)) + 2
+    k = len(sh)
+    v2d = 100.0 * (np.arange(k)[:, None] + 1) + np.arange(width)[None, :] + (float(np.asarray(vals, dtype=float)[0]) if use_b and var.startswith('values') else 0.0)
+    return eqsig.surface.trim_to_length(v2d, npts, sh.astype(float) * dt, dt, trim=odd, start=True, s2s_travel_time=float(s['stt']) * dt)
+
+
+def exec_aba_shift(eqsig, ctx, s):
+    _R3['spec'] = s
+    try:
+        r1 = _aba_shift_call(eqsig, s, False)
+        keep = np.array(r1)
+        r2 = _aba_shift_call(eqsig, s, True)
+        r3 = _aba_shift_call(eqsig, s, False)
+    except Exception as e:
+        ctx.exception(ABA_CLAUSE, s, e)
+        return
+    ctx.check(np.shape(r3) == keep.shape and bool(np.array_equal(r3, keep)) and bool(np.array_equal(r1, keep)) and r3 is not r1 and r2 is not r1,
+              ABA_CLAUSE, lambda: dict(s), '%s: f(A); f(B: other %s); f(A): the third result differs from the first' % (s['which'], s['variant']))
+    _R3['spec'] = None
+
+
+EDGE_KINDS = ['frac-near-0', 'frac-near-1', 'tiny-tau', 'far-tau', 'far-stt', 'stt-near-multiple', 'red-near-0', 'red-near-1',
+              'red-zero', 'red-above-1']
+
+
+def gen_edge_case(rng, j):
+    """Edges of the continuous parameters: fractional delays within 1e-3 .. 1e-9 of a whole sample (on either side), delays of
+    a tiny fraction of a step, delays and start lags of many record durations, stt within 1e-3 .. 1e-9 of a multiple of dt,
+    reduction factors within 1e-3 .. 1e-9 of 0 and of 1, exactly 0, slightly above 1."""
+    c, cls, rcls = gen_surface_case(rng)
+    ek = EDGE_KINDS[j % len(EDGE_KINDS)]
+    if _is_f32(c):
+        c['values'] = np.asarray(c['values'], dtype=float)
+    n, dt = len(c['values']), c['dt']
+    k = int(rng.integers(1, 4))
+    taus = [float(t) for t in np.resize(np.asarray(c['travel_times'], dtype=float), k)]
+    scalar_red = True
+    if ek in ('frac-near-0', 'frac-near-1'):
+        sign = 1.0 if ek == 'frac-near-0' else -1.0
+        taus = [max((int(rng.integers(1 if sign < 0 else 0, 2 * n + 2)) + sign * 10.0 ** rng.uniform(-9, -3)) * dt / 2, 0.0) for _ in range(k)]
+    elif ek == 'tiny-tau':
+        taus = [dt * 10.0 ** rng.uniform(-9, -3) / 2 for _ in range(k)]
+    elif ek == 'far-tau':
+        f = min(20.0, 3000.0 / max(n, 1))
+        taus = [float(rng.uniform(1.5, max(f, 1.6)) * n * dt) for _ in range(k)]
+        if rng.random() < 0.5:
+            taus[0] = float(int(rng.integers(2 * n, 4 * n + 1)) * dt / 2)
+    elif ek == 'far-stt':
+        f = min(10.0, 3000.0 / max(n, 1))
+        c['stt'] = float(rng.uniform(1.5, max(f, 1.6)) * n * dt) if rng.random() < 0.6 else float(int(rng.integers(n, 3 * n + 2)) * dt)
+        c['start'] = bool(rng.random() < 0.8)
+    elif ek == 'stt-near-multiple':
+        c['stt'] = float(int(rng.integers(0, n + 2)) + float(rng.choice([-1.0, 1.0])) * 10.0 ** rng.uniform(-9, -3)) * dt
+        c['stt'] = max(c['stt'], 0.0)
+        c['start'] = bool(rng.random() < 0.8)
+    if ek.startswith('red'):
+        scalar_red = bool(rng.random() < 0.5)
+        size = None if scalar_red else k
+
+        def draw(kind):
+            if kind == 'near-0':
+                return 10.0 ** rng.uniform(-9, -3, size=size)
+            if kind == 'near-1':
+                return 1.0 - 10.0 ** rng.uniform(-9, -3, size=size)
+            if kind == 'above-1':
+                return 1.0 + 10.0 ** rng.uniform(-9, -1, size=size)
+            return np.zeros(k) if size else 0.0
+        kind = ek[4:]
+        other = str(rng.choice(['same', 'one', 'ordinary', kind]))
+        up = draw(kind)
+        if other == 'same':
+            down = np.array(up) if size else up
+        elif other == 'one':
+            down = np.ones(k) if size else 1.0
+        elif other == 'ordinary':
+            down = rng.uniform(0.05, 1.0, size=size)
+        else:
+            down = draw(kind)
+        if rng.random() < 0.5:
+            up, down = down, up
+        if scalar_red:
+            up, down = float(up), float(down)
+        c.update(up_red=up, down_red=down, same_red_object=False)
+    else:
+        u = c.get('up_red')
+        if isinstance(u, np.ndarray):       # the travel-time count changed: fresh array reductions of the new size
+            c.update(up_red=rng.uniform(0.05, 1.0, size=k), down_red=rng.uniform(0.05, 1.0, size=k), same_red_object=False)
+    tarr = np.array(taus, dtype=float)
+    cont = str(rng.choice(['ndarray', 'list', 'tuple', 'readonly'] + (['scalar'] if k == 1 else [])))
+    c.update(travel_times=tarr, tt_obj=_build_tt(tarr, cont), tt_container=cont)
+    c['forms_cls'] = 'edge'
+    return c, 'surface:edge/%s' % ek, rcls
+
+
+def gen_silent_case(rng, j):
+    """Silent (all-zero) records and strictly one-signed records (no zero sample, no sign change) in several containers."""
+    c, cls, rcls = gen_surface_case(rng)
+    n = len(c['values'])
+    kind = ['silent', 'positive', 'negative', 'silent'][j % 4]
+    if kind == 'silent':
+        form = ['float64', 'int64', 'list', 'list-int', 'tuple', 'float32', 'int8', 'readonly'][(j // 4) % 8]
+        z = np.zeros(n)
+        vals = {'float64': z, 'int64': z.astype(np.int64), 'list': [0.0] * n, 'list-int': [0] * n, 'tuple': (0.0,) * n,
+                'float32': z.astype(np.float32), 'int8': z.astype(np.int8), 'readonly': _as_form(z, 'readonly')}[form]
+    else:
+        x = np.abs(_x64(c))
+        x = x + (float(np.max(x)) + 1.0) * 10.0 ** rng.uniform(-3, 0)
+        x = x if kind == 'positive' else -x
+        form = ['float64', 'list', 'tuple', 'view'][(j // 4) % 4]
+        vals = {'float64': x, 'list': [float(v) for v in x], 'tuple': tuple(float(v) for v in x), 'view': _as_form(x, 'view')}[form]
+    c['values'] = vals
+    c['forms_cls'] = 'silent' if kind == 'silent' else 'one-signed'
+    return c, 'surface:%s-record(%s)' % (kind, form), kind
+
+
+def run_silent_shifts(eqsig, ctx, rng, j):
+    n = int(rng.choice([1, 2, 5, 16]))
+    sh = rng.integers(-5, 6, size=int(rng.integers(1, 5)))
+    kind = ['silent', 'positive', 'negative'][j % 3]
+    if kind == 'silent':
+        base = np.zeros(n)
+    else:
+        base = (np.abs(rng.normal(size=n)) + 0.1) * (1.0 if kind == 'positive' else -1.0)
+    form = ['ndarray', 'list', 'tuple', 'int64', 'list-int', 'uint8'][(j // 3) % 6]
+    if form in ('int64', 'list-int', 'uint8'):
+        base = np.round(np.abs(base) * 50) + (0 if kind == 'silent' else 1)
+        if kind == 'negative' and form != 'uint8':
+            base = -base
+    vals = {'ndarray': base, 'list': [float(v) for v in base], 'tuple': tuple(float(v) for v in base), 'int64': base.astype(np.int64),
+            'list-int': [int(v) for v in base], 'uint8': np.abs(base).astype(np.uint8)}[form]
+    ctx.case(core.digest(np.asarray(base), sh, form, kind), nontrivial=kind != 'silent', cls='shift:%s-values(%s)' % (kind, form),
+             sample={'fn': 'put x4 + join + join_sig', 'values': base, 'shifts': sh, 'form': form})
+    sh_arg = sh if j % 2 else sh.tolist()
+    for clip in ('none', 'start', 'end', 'both'):
+        _put(eqsig, ctx, vals, sh_arg, clip)
+    _join(eqsig, ctx, vals, np.abs(sh) if j % 2 else np.abs(sh).tolist(), 'sub' if j % 2 else 'add')
+    _join_sig(eqsig, ctx, vals, 0.02, np.abs(sh) * 0.02 + 0.005, 'add' if j % 2 else 'sub', cls='AccSignal' if j % 2 else 'Signal')
+
+
+def run_round3(eqsig, ctx, rng, quick):
+    sh, ns = ctx.shard, ctx.nshards
+
+    def reps(nq, nt):
+        return (nq if quick else nt) // ns + 1
+    for j in range(reps(480, 8000)):
+        jj = j + 3 * sh          # class counter: cycles through the kinds inside every shard
+        s = gen_protocol_spec(rng, jj)
+        ctx.case(core.digest(s['values'], s['dt'], s['warm'], s['how'], s['mut'], s['mut_on'], s['order'], s['opts']['travel_times']),
+                 nontrivial=bool(np.any(s['values'] != 0)), cls='object:%s/%s' % (s['how'], s['warm']),
+                 sample={'fn': 'copy protocol', 'n': len(s['values']), 'how': s['how'], 'warm': s['warm'], 'mut': s['mut'],
+                         'mut_on': s['mut_on'], 'order': s['order']})
+        exec_protocol(eqsig, ctx, s)
+        _R3['spec'] = None
+    for j in range(reps(400, 7000)):
+        jj = j + 3 * sh          # class counter: cycles through the kinds inside every shard
+        s = gen_assign_spec(rng, jj)
+        ctx.case(core.digest(s['values'], s['dt'], s['attr'], s['form'], s['new'], s['opts']['travel_times']),
+                 nontrivial=bool(np.any(s['values'] != 0)), cls='object:assign .%s' % s['attr'],
+                 sample={'fn': 'attribute assignment', 'n': len(s['values']), 'attr': s['attr'], 'form': s['form'], 'size': int(np.size(s['new']))})
+        exec_assign(eqsig, ctx, s)
+        _R3['spec'] = None
+    for j in range(reps(480, 8000)):
+        jj = j + 3 * sh          # class counter: cycles through the kinds inside every shard
+        s = gen_raise_spec(rng, jj)
+        ctx.case(core.digest(s['values'], s['dt'], s['group'], s['kind'], s['opts']['travel_times']),
+                 nontrivial=bool(np.any(s['values'] != 0)), cls='object:%s/%s' % (s['group'], s['kind']),
+                 sample={'fn': 'operation that raises', 'n': len(s['values']), 'group': s['group'], 'kind': s['kind']})
+        exec_raise(eqsig, ctx, s)
+        _R3['spec'] = None
+    for j in range(reps(480, 8000)):
+        jj = j + 3 * sh          # class counter: cycles through the kinds inside every shard
+        s = gen_aba_spec(rng, jj)
+        ctx.case(core.digest(np.asarray(s['A']['values'], dtype=float), s['A']['dt'], s['A']['travel_times'], s['variant'], s['surf_fn'],
+                             np.asarray(s['B']['values'], dtype=float)),
+                 nontrivial=True, cls='aba:%s' % s['variant'],
+                 sample={'fn': 'f(A);f(B);f(A)', 'variant': s['variant'], 'surf_fn': s['surf_fn'], 'n': len(s['A']['values'])})
+        exec_aba(eqsig, ctx, s)
+        _R3['spec'] = None
+        s2 = gen_aba_shift_spec(rng, jj)
+        ctx.case(core.digest(s2['values'], s2['shifts'], s2['which'], s2['variant']), nontrivial=True,
+                 cls='aba-shift:%s/%s' % (s2['which'], s2['variant']))
+        exec_aba_shift(eqsig, ctx, s2)
+        _R3['spec'] = None
+    for j in range(reps(400, 7000)):
+        jj = j + 3 * sh          # class counter: cycles through the kinds inside every shard
+        c, cls, rcls = gen_edge_case(rng, jj)
+        alpha = draw_alpha(rng, jj)
+        x = _x64(c)
+        ctx.case(core.digest(x, c['dt'], c['travel_times'], c['up_red'], c['down_red'], c['stt'], c['trim'], c['start'], c['nodal']),
+                 nontrivial=bool(len(x) > 1 and np.any(x != 0)), cls=cls,
+                 sample={'fn': 'calc_cum_abs_surface_energy+relations', 'n': len(x), 'dt': c['dt'], 'travel_times': c['travel_times'],
+                         'up_red': c['up_red'], 'down_red': c['down_red'], 'stt': c['stt'], 'class': cls})
+        run_surface_case(eqsig, ctx, c, j, alpha)
+    for j in range(reps(200, 3500)):
+        jj = j + 3 * sh          # class counter: cycles through the kinds inside every shard
+        c, cls, rcls = gen_silent_case(rng, jj)
+        alpha = draw_alpha(rng, jj)
+        x = _x64(c)
+        ctx.case(core.digest(x, c['dt'], c['travel_times'], c['stt'], c['trim'], c['start'], c['nodal'], cls),
+                 nontrivial=bool(np.any(x != 0)), cls=cls,
+                 sample={'fn': 'calc_cum_abs_surface_energy+relations', 'n': len(x), 'dt': c['dt'], 'class': cls})
+        run_surface_case(eqsig, ctx, c, j, alpha)
+        run_silent_shifts(eqsig, ctx, rng, jj)
+
+
 def run_shard(ctx):
     eqsig = core.import_eqsig()
     install(ctx)
@@ -2136,6 +3131,8 @@ def run_shard(ctx):
         run_extreme_case(eqsig, ctx, rng, j * ctx.nshards + ctx.shard)
     if ctx.shard < (4 if quick else 16):
         run_big_product(eqsig, ctx, rng, ctx.shard)
+    # -- audit round 3: object protocols, attribute assignment, operations that raise, A;B;A, parameter edges, silent records
+    run_round3(eqsig, ctx, rng, quick)
     # -- shifts: exhaustive small vectors -----------------------------------------------------------------------------
     maxlen = 3 if quick else 4
     idx = 0
@@ -2277,6 +3274,21 @@ def replay(w):
             ctx.check(bool(np.array_equal(q1, k1)), 'first-result-unchanged-after-second-call', w, 'first result changed')
         except Exception as e:
             ctx.exception('put2d==offsets', w, e)
+    elif fn == 'r3.protocol':
+        exec_protocol(eqsig, ctx, w)
+        _R3['spec'] = None
+    elif fn == 'r3.assign':
+        exec_assign(eqsig, ctx, w)
+        _R3['spec'] = None
+    elif fn == 'r3.raise':
+        exec_raise(eqsig, ctx, w)
+        _R3['spec'] = None
+    elif fn == 'r3.aba':
+        exec_aba(eqsig, ctx, w)
+        _R3['spec'] = None
+    elif fn == 'r3.aba-shift':
+        exec_aba_shift(eqsig, ctx, w)
+        _R3['spec'] = None
     elif fn == 'trim_to_length':
         vals = np.asarray(w['values2d'])
         form = w.get('values2d_form', 'ndarray')
